@@ -17,7 +17,7 @@ import os, re, sys, json, glob, hashlib
 TOK = re.compile(r"""
     (?P<ws>\s+|//[^\n]*|/\*.*?\*/)
   | (?P<str>"(?:[^"\\]|\\.)*")
-  | (?P<num>0x[0-9a-fA-F_]+(?:[ui](?:8|16|32|64|128|size))?|[0-9][0-9_]*(?:[ui](?:8|16|32|64|128|size))?)
+  | (?P<num>0[xX][0-9a-fA-F_]+(?:[ui](?:8|16|32|64|128|size))?|0[bB][01_]+(?:[ui](?:8|16|32|64|128|size))?|0[oO][0-7_]+(?:[ui](?:8|16|32|64|128|size))?|[0-9][0-9_]*(?:[ui](?:8|16|32|64|128|size))?)
   | (?P<life>'[A-Za-z_][A-Za-z0-9_]*(?!'))
   | (?P<chr>'(?:[^'\\]|\\.)')
   | (?P<id>[A-Za-z_][A-Za-z0-9_]*)
@@ -150,7 +150,7 @@ class P:
         if k == 'num':
             self.eat()
             s = re.sub(r'[ui](8|16|32|64|128|size)$', '', v).replace('_', '')
-            return ('int', int(s, 16) if s.startswith('0x') else int(s))
+            return ('int', int(s, 0) if s[:2].lower() in ('0x', '0b', '0o') else int(s))
         if k == 'str':
             self.eat()
             return ('str', v[1:-1])
@@ -422,7 +422,9 @@ class Lower:
         for c in cands:
             if self.cur is not None and c is self.cur:
                 continue
-            score = (c['ctx'] == ty) * 8 + (c['file_id'] == self.file_id) * 4 + (c['build'] == self.build) * 2 + (c['build'] == 'both')
+            # ties between same-named items of sibling modules (fq / fr / fp) go to the nearest module
+            near = len(os.path.commonprefix([c['file_id'], self.file_id])) / 1000.0
+            score = (c['ctx'] == ty) * 8 + (c['file_id'] == self.file_id) * 4 + (c['build'] == self.build) * 2 + (c['build'] == 'both') + near
             if c['build'] not in (self.build, 'both') and self.build != 'both':
                 continue
             if best is None or score > best[0]:
@@ -542,6 +544,19 @@ class Lower:
                 return f"Lit.nat {1 if name == 'D' else 0}"
             return 'Lit.unknown'
         if k == 'binop':
+            # constant folding of plain integer arithmetic (`1 << 47`, `0x12 + 0`, `A * 2`): only when both operands lower
+            # to naturals and the result is a natural
+            a, b = self.low(e[2]), self.low(e[3])
+            ma, mb = re.match(r'^Lit\.nat (\d+)$', a), re.match(r'^Lit\.nat (\d+)$', b)
+            if ma and mb:
+                x, y = int(ma.group(1)), int(mb.group(1))
+                try:
+                    v = {'+': lambda: x + y, '-': lambda: x - y, '*': lambda: x * y, '/': lambda: x // y, '%': lambda: x % y,
+                         '<<': lambda: x << y if y < 4096 else None, '>>': lambda: x >> y, '|': lambda: x | y}[e[1]]()
+                except (ZeroDivisionError, KeyError):
+                    v = None
+                if v is not None and v >= 0:
+                    return f'Lit.nat {v}'
             return 'Lit.unknown'
         if k == 'neg':
             return 'Lit.unknown'
